@@ -14,7 +14,7 @@ def IdxInv (s : St) : Prop :=
   (∀ i, i < s.arr.length → (s.at i).id < s.idx.length ∧ s.idx.getD (s.at i).id (-1) = (i : Int)) ∧
   (∀ h, h < s.idx.length → (∀ i, i < s.arr.length → (s.at i).id ≠ h) → s.idx.getD h (-1) = -1)
 
-theorem idxInv_init (d : Bool) : IdxInv (init d) := by
+theorem idxInv_init (d : Cmp) : IdxInv (init d) := by
   constructor <;> simp [init]
 
 /-- Under `IdxInv` two slots holding the same id are the same slot. -/
@@ -179,7 +179,7 @@ theorem heapRemove_eq (s : St) (i : Nat) : heapRemove s i = popLast (removePre s
 
 @[simp] theorem removePre_length (s : St) (i) : (removePre s i).arr.length = s.arr.length := by
   unfold removePre; split <;> (try split) <;> simp
-@[simp] theorem removePre_desc (s : St) (i) : (removePre s i).desc = s.desc := by
+@[simp] theorem removePre_cmp (s : St) (i) : (removePre s i).cmp = s.cmp := by
   unfold removePre; split <;> (try split) <;> simp
 @[simp] theorem removePre_idx_length (s : St) (i) : (removePre s i).idx.length = s.idx.length := by
   unfold removePre; split <;> (try split) <;> simp
@@ -264,7 +264,7 @@ theorem idxInv_final_of (s : St) (ops : List Op) (hs : IdxInv s) : IdxInv (final
   | cons op ops ih => exact ih _ (idxInv_step s op hs)
 
 /-- The index invariant holds after every history of requests on a fresh queue. -/
-theorem idxInv_final (d : Bool) (ops : List Op) : IdxInv (final (init d) ops) :=
+theorem idxInv_final (d : Cmp) (ops : List Op) : IdxInv (final (init d) ops) :=
   idxInv_final_of _ ops (idxInv_init d)
 
 theorem run_fst (s : St) (ops : List Op) : (run s ops).1 = final s ops := by
